@@ -448,8 +448,21 @@ class Inliner:
                     except GiveUp:
                         continue
                     if isinstance(st, ast.Expr) and st.value is call and not getattr(st, "_keep_value", False):
-                        # a bare call: the returned value is dropped
-                        new_stmts = prelude + lowered
+                        # a bare call: the returned value is dropped (and so is the bookkeeping assignment of a None result)
+                        def strip(block):
+                            out2 = []
+                            for x in block:
+                                if isinstance(x, ast.Assign) and len(x.targets) == 1 and isinstance(x.targets[0], ast.Name) and x.targets[0].id == ret \
+                                        and isinstance(x.value, ast.Constant) and x.value.value is None:
+                                    continue
+                                for fld in ("body", "orelse"):
+                                    b2 = getattr(x, fld, None)
+                                    if isinstance(b2, list) and b2 and isinstance(b2[0], ast.stmt):
+                                        nb = strip(b2)
+                                        setattr(x, fld, nb if (nb or fld == "orelse") else [ast.Pass()])
+                                out2.append(x)
+                            return out2
+                        new_stmts = prelude + strip(lowered)
                     else:
                         self.replace_call(st, call, ast.Name(id=ret, ctx=ast.Load()))
                         new_stmts = prelude + lowered + [st]
